@@ -583,6 +583,28 @@ def pairs():
         await b.probe('Pipe.transfer[positive, inf limit]', lambda: finite.transfer(1, inf))
         await b.probe('Pipe.transfer[positive, huge limit]', lambda: finite.transfer(1, 1e300))
 
+    @add('delays absorbed by the clock')
+    async def _(b):
+        # a positive span of time that is too small to move the float clock still is a
+        # suspension: at an ordinary time with tiny spans, at a huge time with ordinary ones
+        for label, span in (('tiny span at time 1', 1e-20), ('span 1 at time 2**53', 1)):
+            if span == 1:
+                await (time >= 2.0 ** 53)
+            else:
+                await (time + 1)
+            pipe, unbounded = Pipe(throughput=1), UnboundedPipe()
+            await b.probe('Pipe.transfer[%s]' % label, lambda: pipe.transfer(span))
+            await b.probe('UnboundedPipe.transfer[limit, %s]' % label,
+                          lambda: unbounded.transfer(span, 1))
+            await b.probe('time + d[%s]' % label, lambda: time + span)
+            it = usim.delay(span)
+            await b.probe('delay(d) step 1[%s]' % label, lambda: it.__anext__())
+            await b.probe('delay(d) step 2[%s]' % label, lambda: it.__anext__())
+            await it.aclose()
+            it = usim.interval(span)
+            await b.probe('interval(d) step 1[%s]' % label, lambda: it.__anext__())
+            await it.aclose()
+
     # ---- tickers ----
     for how in ('interval', 'delay'):
         for period in (0, 1):
